@@ -657,4 +657,146 @@ theorem fold_bxor (ht : t ≠ .bool)
 
 end arms2
 
+section arms3
+theorem ediv_pow_bounds (x : Int) (n : Nat) :
+    (0 ≤ x → 0 ≤ x / 2 ^ n ∧ x / 2 ^ n ≤ x) ∧ (x < 0 → x ≤ x / 2 ^ n ∧ x / 2 ^ n < 0) := by
+  have hd : (0 : Int) < 2 ^ n := Int.pow_pos (by decide)
+  constructor
+  · intro hx
+    exact ⟨Int.ediv_nonneg hx (Int.le_of_lt hd), Int.ediv_le_self _ hx⟩
+  · intro hx
+    constructor
+    · apply Int.le_ediv_of_mul_le hd
+      have h1 : (1 : Int) ≤ 2 ^ n := hd
+      have := Int.mul_le_mul_of_nonpos_left (a := x) (b := 2 ^ n) (c := 1) (Int.le_of_lt hx) h1
+      simpa using this
+    · exact Int.ediv_neg_of_neg_of_pos hx hd
+
+theorem shift_inRange (t : ITy) (hw : Wide t) (x : Int) (n : Nat) (hx : t.inRange x = true) : t.inRange (x / 2 ^ n) = true := by
+  have ⟨h1, h2⟩ := ediv_pow_bounds x n
+  rcases hw with h | h | h | h <;> subst h <;> rng <;> omega
+
+variable (fp : FpEnv) (t : ITy) (l r : CNode) (x y v : Int) (label : Bool)
+
+theorem fold_shl (hw : Wide t)
+    (hl : ∀ lab, eval2 .wrapping fp l lab = .ok (img x)) (hr : ∀ lab, eval2 .wrapping fp r lab = .ok (img y))
+    (hx : t.inRange x = true) (hv : binop .shl t x y = some v) :
+    eval2 .wrapping fp (.mk .ND_SHL (descr t) 0 l r .null .null .null) label = .ok (img v) ∧ t.inRange v = true := by
+  simp only [binop] at hv
+  split at hv
+  · cases hv
+  · rename_i hc
+    have hy : 0 ≤ y ∧ y < 64 := by
+      rcases hw with h | h | h | h <;> subst h <;> simp [ITy.bits] at hc <;> omega
+    have hcnt : (img y).toInt = y := img_toInt y (by omega) (by omega)
+    have hraw : shlS .wrapping (img x) (img y).toInt = .ok (img (x * 2 ^ y.toNat)) := by
+      rw [hcnt]
+      simp only [shlS, ovf]
+      rw [if_neg (by omega), img_shl x y.toNat (by omega)]
+    have hres : wrapTy (descr t) (img (x * 2 ^ y.toNat)) = img v ∧ t.inRange v = true := by
+      rw [wrap_convert t hw.ne_bool]
+      split at hv
+      · split at hv
+        · cases hv
+        · split at hv
+          · cases hv; rename_i hin; exact ⟨by rw [convert_id t _ hin], hin⟩
+          · cases hv
+      · cases hv
+        refine ⟨?_, ?_⟩
+        · rcases hw with h | h | h | h <;> subst h <;> simp_all [ITy.convert, ITy.signed, ITy.bits]
+        · have := convert_inRange t (x * 2 ^ y.toNat)
+          rcases hw with h | h | h | h <;> subst h <;> simp_all [ITy.convert, ITy.signed, ITy.bits]
+    refine ⟨?_, hres.2⟩
+    rw [eval2_SHL _ _ _ _ _ _ _ _ _ _ (descr_not_flonum t)]
+    simp only [hl, hr, bind, Except.bind, pure, Except.pure, hraw, hres.1]
+
+theorem fold_shr (hw : Wide t)
+    (hl : ∀ lab, eval2 .wrapping fp l lab = .ok (img x)) (hr : ∀ lab, eval2 .wrapping fp r lab = .ok (img y))
+    (hx : t.inRange x = true) (hv : binop .shr t x y = some v) :
+    eval2 .wrapping fp (.mk .ND_SHR (descr t) 0 l r .null .null .null) label = .ok (img v) ∧ t.inRange v = true := by
+  simp only [binop] at hv
+  split at hv
+  · cases hv
+  · rename_i hc
+    cases hv
+    have hy : 0 ≤ y ∧ y < 64 := by
+      rcases hw with h | h | h | h <;> subst h <;> simp [ITy.bits] at hc <;> omega
+    have hcnt : (img y).toInt = y := img_toInt y (by omega) (by omega)
+    have hin := shift_inRange t hw x y.toNat hx
+    refine ⟨?_, hin⟩
+    rw [eval2_SHR _ _ _ _ _ _ _ _ _ _ (descr_not_flonum t)]
+    simp only [hl, hr, bind, Except.bind, pure, Except.pure, hcnt]
+    have hwr := wrap_convert t hw.ne_bool (x / 2 ^ y.toNat)
+    rw [convert_id t _ hin] at hwr
+    rcases hw with h | h | h | h <;> subst h <;> rng
+    · simp only [descr, Bool.false_and, Bool.false_eq_true, ite_false, shrS]
+      rw [if_neg (by omega), img_sshr x y.toNat (by omega)]; exact congrArg Except.ok hwr
+    · simp only [descr, show ((4#32 : BitVec 32) == 8#32) = false from by decide, Bool.and_false, Bool.false_eq_true, ite_false, shrS]
+      rw [if_neg (by omega), img_sshr x y.toNat (by omega)]; exact congrArg Except.ok hwr
+    · simp only [descr, Bool.false_and, Bool.false_eq_true, ite_false, shrS]
+      rw [if_neg (by omega), img_sshr x y.toNat (by omega)]; exact congrArg Except.ok hwr
+    · simp only [descr, show ((8#32 : BitVec 32) == 8#32) = true from by decide, Bool.and_self, ite_true, shrU]
+      rw [if_neg (by omega), img_ushr x y.toNat (by omega)]; exact congrArg Except.ok hwr
+
+
+end arms3
+
+section arms4
+variable (fp : FpEnv) (t : ITy) (l r : CNode) (x y v : Int) (label : Bool)
+
+theorem img_inj (hw : Wide t) (hx : t.inRange x = true) (hy : t.inRange y = true) : img x = img y ↔ x = y := by
+  constructor
+  · intro h
+    rcases hw with h' | h' | h' | h' <;> subst h' <;> rng
+    · have := congrArg BitVec.toInt h; rw [img_toInt x (by omega) (by omega), img_toInt y (by omega) (by omega)] at this; exact this
+    · have := congrArg (fun b => (b.toNat : Int)) h
+      rw [img_toNat x (by omega) (by omega), img_toNat y (by omega) (by omega)] at this; exact this
+    · have := congrArg BitVec.toInt h; rw [img_toInt x (by omega) (by omega), img_toInt y (by omega) (by omega)] at this; exact this
+    · have := congrArg (fun b => (b.toNat : Int)) h
+      rw [img_toNat x (by omega) (by omega), img_toNat y (by omega) (by omega)] at this; exact this
+  · intro h; rw [h]
+
+/-- host comparison of two images at a wide type = comparison of the values -/
+theorem cmp_images (hw : Wide t) (hx : t.inRange x = true) (hy : t.inRange y = true) :
+    (if (descr t).isUnsigned then BitVec.ult (img x) (img y) else BitVec.slt (img x) (img y)) = decide (x < y)
+    ∧ (if (descr t).isUnsigned then BitVec.ule (img x) (img y) else BitVec.sle (img x) (img y)) = decide (x ≤ y) := by
+  rcases hw with h' | h' | h' | h' <;> subst h' <;> rng <;>
+    simp only [descr, Bool.false_eq_true, ite_false, ite_true, BitVec.slt_eq_decide, BitVec.sle_eq_decide,
+      BitVec.ult_eq_decide, BitVec.ule_eq_decide]
+  · rw [img_toInt x (by omega) (by omega), img_toInt y (by omega) (by omega)]; exact ⟨rfl, rfl⟩
+  · have hx' := img_toNat x (by omega) (by omega); have hy' := img_toNat y (by omega) (by omega)
+    constructor <;> apply decide_eq_decide.2 <;> omega
+  · rw [img_toInt x (by omega) (by omega), img_toInt y (by omega) (by omega)]; exact ⟨rfl, rfl⟩
+  · have hx' := img_toNat x (by omega) (by omega); have hy' := img_toNat y (by omega) (by omega)
+    constructor <;> apply decide_eq_decide.2 <;> omega
+
+/-- the comparison arm on two operands cast to the wide type `t` -/
+theorem cmpArm_ok (op : String) (cu cs : BitVec 64 → BitVec 64 → Bool) (b : Bool)
+    (hlt : CNode.tyOf l = .ok (descr t))
+    (hl : ∀ lab, eval2 .wrapping fp l lab = .ok (img x)) (hr : ∀ lab, eval2 .wrapping fp r lab = .ok (img y))
+    (hb : (if (descr t).isUnsigned then cu (img x) (img y) else cs (img x) (img y)) = b) :
+    cmpArm .wrapping fp op cu cs l r = .ok (img (b2z b)) := by
+  unfold cmpArm
+  simp only [hlt, descr_not_flonum, bind, Except.bind, pure, Except.pure, Bool.false_eq_true, ite_false, hl, hr]
+  subst hb
+  split <;> simp only [b2i_castS] <;> rfl
+
+theorem fold_cmp_node (b : Bool) (raw : Except Fail (BitVec 64)) (hraw : raw = .ok (img (b2z b))) :
+    (raw >>= fun v => pure (wrapTy tyInt v)) = (.ok (img (b2z b)) : Except Fail (BitVec 64)) := by
+  subst hraw
+  simp only [bind, Except.bind, pure, Except.pure, wrap_int01]
+
+/-- `eval_truth` on an integer node -/
+theorem truth_ok (n : CNode) (hn : ∀ lab, eval2 .wrapping fp n lab = .ok (img x))
+    (hx : -9223372036854775808 ≤ x ∧ x ≤ 18446744073709551615) (hnf : isFlonum (nodeTy n) = false) :
+    truth .wrapping fp n = .ok (x != 0) := by
+  unfold truth
+  have hz := img_eq_zero_iff x hx.1 hx.2
+  have : (img x != 0#64) = (x != 0) := by
+    rw [Bool.eq_iff_iff]; simp only [bne_iff_ne, ne_eq]; exact not_congr hz
+  simp only [tyOf_of_eval (hn false), hnf, hn, bind, Except.bind, pure, Except.pure, Bool.false_eq_true, ite_false, this]
+
+
+end arms4
+
 end ChibiVerif.ConstEvalLemmas
